@@ -5,6 +5,7 @@ package main
 // Lean model fed the same blocks, canonical dumps compared after every block.
 
 import (
+	"sort"
 	"database/sql"
 	"fmt"
 	"math/rand"
@@ -243,13 +244,40 @@ func (w *World) randomBatch(h uint32) (factom.Entry, string) {
 	return w.G.Batch(h, u, txs), shape
 }
 
+// fundedConversion is a conversion of a tenth of some user's balance into pUSD (pEUR from pUSD).
+func (w *World) fundedConversion(h uint32) (factom.Entry, bool) {
+	for _, u := range w.G.Users {
+		if u.IsE && h < w.S.Acts.RCDE {
+			continue
+		}
+		for _, t := range w.NonZeroAssets(u.FA()) {
+			bal := w.Balance(u.FA(), t)
+			if bal < 1000 || t == fat2.PTickerPEG && h < w.S.Acts.PegPricing {
+				continue
+			}
+			to := fat2.PTickerUSD
+			if t == to {
+				to = fat2.PTickerEUR
+			}
+			return w.G.Batch(h, u, []fat2.Transaction{Conversion(u.FA(), t, bal/10, to)}), true
+		}
+	}
+	return factom.Entry{}, false
+}
+
 // BuildBlock generates the block at height h on top of the implementation's current ledger.
 func (w *World) BuildBlock(h uint32) *BlockSpec {
 	r := w.G.R
 	a := w.S.Acts
 	b := &BlockSpec{Height: h, Time: BlockTime(h)}
 	// small random walk of the market
-	for name, v := range w.G.Rates {
+	names := make([]string, 0, len(w.G.Rates))
+	for name := range w.G.Rates {
+		names = append(names, name)
+	}
+	sort.Strings(names)
+	for _, name := range names {
+		v := w.G.Rates[name]
 		if name == "USD" {
 			continue
 		}
@@ -311,6 +339,12 @@ func (w *World) BuildBlock(h uint32) *BlockSpec {
 				name := opr.V5Assets[1+r.Intn(len(opr.V5Assets)-1)]
 				rates[name] = rates[name] + rates[name]/20
 				w.Rep.Count("spr:5pct")
+			} else if band == 2 { // a low-priced asset half a percent off: inside 1 %, outside 0.1 %
+				rates["KRW"] = rates["KRW"] + rates["KRW"]/200
+				w.Rep.Count("spr:halfpct-low")
+			} else if band == 3 { // a high-priced asset half a percent off
+				rates["XBT"] = rates["XBT"] + rates["XBT"]/200
+				w.Rep.Count("spr:halfpct-high")
 			}
 			b.SPR = w.G.SPRSet(h, sv, ids, signers, payout, rates, nil)
 			w.Rep.Count("spr:set")
@@ -321,6 +355,19 @@ func (w *World) BuildBlock(h uint32) *BlockSpec {
 		for i := 0; i < nb; i++ {
 			u := w.G.Users[r.Intn(len(w.G.Users))]
 			b.FCT = append(b.FCT, Burn(h, u.FA(), uint64(1+r.Intn(50))*1e8, i))
+		}
+	}
+	// every activation boundary gets a funded plain conversion submitted just before, at and
+	// just after it, so that conversions are pending across each rule change
+	if h >= a.TxConv {
+		for _, act := range []uint32{a.PegPricing, a.OneWayFCT, a.ConvLimit, a.V4, a.V20, a.DevRewards, a.V202, a.V204, a.V204Burn, a.PIP10} {
+			if h+2 == act || h+1 == act || h == act {
+				if e, ok := w.fundedConversion(h); ok {
+					b.TX = append(b.TX, e)
+					w.Rep.Count("batch:boundary-conversion")
+				}
+				break
+			}
 		}
 	}
 	nt := r.Intn(5)
@@ -401,6 +448,9 @@ func runGeneralChain(rep *Report, seed int64, variant int, length uint32) {
 		}
 		if !res.ImplOK {
 			rep.Sample(map[string]interface{}{"height": h, "era": eraOf(s.Acts, h), "result": res.ImplClass, "msg": res.ImplMsg})
+			lpath := WriteReplay(rep.Property, "general-liveness", Replay{Property: rep.Property, Scenario: "general", Seed: seed, Setup: s,
+				What: fmt.Sprintf("height %d cannot be applied: %s", h, res.ImplMsg), Blocks: ChainJSON(run.Chain)})
+			rep.Violate("liveness:"+res.ImplClass+":"+eraOf(s.Acts, h), fmt.Sprintf("height %d: %s", h, res.ImplMsg), lpath)
 			// replace the block by an empty one so the chain can continue
 			if err := run.RecoverFrom(res); err != nil {
 				rep.Note("infrastructure: %v", err)
